@@ -21,6 +21,7 @@ Proof.
   set (p := pobs_of rets (settle (step repaired (hs h) e0)) (hrel h)).
   assert (Em : mon (Some m) e o = (Some (u_mst m e p), [])).
   { unfold mon. rewrite Eo, (parse_obs e rets _ _ Hr). fold p. rewrite mon1_eq. f_equal.
+    rewrite (clause_10_8 p rets _ _ eq_refl), app_nil_r.
     unfold p. rewrite (facc_nil m h e e0 rets HRh HCh HP Hd Hcur Hem HA), app_nil_r. rewrite (rp_const m h HP).
     destruct (hconst h) eqn:Hc; [reflexivity|]. destruct (HN eq_refl) as [Hcalled Hcur0 Hout Hem0 Hinv].
     unfold u_all.
